@@ -8,6 +8,9 @@ struct Case
 {
     RtConfig cfg;
     Program prog;
+    // bystanders: tasks parked for the whole duration of a wave so that every queue's thread map sits above
+    // pika.thread_queue.max_thread_count while the wave's tasks are created, suspended and woken
+    int crowd = 0;
 };
 
 static Case decode(tape_t const& tape)
@@ -16,6 +19,11 @@ static Case decode(tape_t const& tape)
     Case c;
     c.cfg = decode_config(t, {S_SL_BEFORE_RUN, S_SL_AFTER_RUN, S_SL_AFTER_STORE, S_DO_YIELD, S_STS_BEFORE_CAS,
                                  S_STS_BEFORE_SCHEDULE, S_SET_ACTIVE_STATE, S_CV_WAIT, S_CV_NOTIFY_ONE});
+    {
+        int per_worker = t.pick({0, 0, 0, 14, 40});
+        if (c.cfg.workers <= 2 && t.chance(1, 12)) per_worker = 1000;
+        c.crowd = per_worker * c.cfg.workers;
+    }
     ProgOptions o;
     o.workers = c.cfg.workers;
     c.prog = decode_program(t, o);
@@ -25,7 +33,7 @@ static Case decode(tape_t const& tape)
 static std::string describe(tape_t const& tape)
 {
     Case c = decode(tape);
-    return "{\"config\": " + c.cfg.describe() + ", \"program\": " + c.prog.describe() + "}";
+    return "{\"config\": " + c.cfg.describe() + ", \"program\": " + c.prog.describe() + ", \"parked_bystander_tasks_per_wave\": " + std::to_string(c.crowd) + "}";
 }
 
 static Outcome run(tape_t const& tape)
@@ -40,12 +48,44 @@ static Outcome run(tape_t const& tape)
     Quiescence q;
     q.start();
     Outcome out;
+    long long crowd_parked = 0;
     for (int w = 0; w < c.prog.nwaves; ++w)
     {
-        in.submit_wave(w);
+        if (c.crowd == 0)
         {
+            in.submit_wave(w);
             MainWaiting mw;
             pika::wait();
+        }
+        else
+        {
+            // the bystanders are released by a harness thread once every task of the wave has finished; until then the main
+            // thread waits for that signal (a quiescent runtime with the wave unfinished = lost / deadlocked task)
+            auto wave_finished = [&] {
+                for (int i = 0; i < in.led.n; ++i)
+                    if (c.prog.tasks[static_cast<std::size_t>(i)].wave == w && in.led.finished[static_cast<std::size_t>(i)].load() != 1) return false;
+                return true;
+            };
+            pika::latch crowd_latch(1);
+            std::atomic<int> parked{0};
+            for (int k = 0; k < c.crowd; ++k)
+                pika::execution::experimental::execute(pika::execution::experimental::thread_pool_scheduler{}, [&] { parked.fetch_add(1); crowd_latch.wait(); });
+            in.submit_wave(w);
+            G().awaited_signal_missing = [&] { return !wave_finished(); };
+            std::thread releaser([&] {
+                while (!wave_finished()) { struct timespec ts { 0, 500000 }; nanosleep(&ts, nullptr); }
+                crowd_latch.count_down(1);
+            });
+            {
+                MainWaitingForSignal mw;
+                releaser.join();
+            }
+            G().awaited_signal_missing = nullptr;
+            {
+                MainWaiting mw;
+                pika::wait();
+            }
+            crowd_parked += parked.load();
         }
         std::string err = in.check_wave(w);
         if (!err.empty()) { out = Outcome::fail("ledger_after_wait", err); break; }
@@ -65,6 +105,8 @@ static Outcome run(tape_t const& tape)
     if (G().rebinds.load() > 0) out.tags.push_back("saw:rebind");
     if (G().active_retry.load() > 0) out.tags.push_back("saw:active_retry");
     if (c.prog.nsubmitters > 0) out.tags.push_back("external_submitters");
+    if (c.crowd) out.tags.push_back(c.crowd / c.cfg.workers + 10 > c.cfg.max_thread_count ? "has:parked_bystanders_above_the_queues_thread_limit" : "has:parked_bystanders");
+    out.counters["bystanders_parked"] = crowd_parked;
     if (c.prog.mass_event >= 0)
     {
         out.tags.push_back("has:mass_wait");
